@@ -1,4 +1,5 @@
 #include <ctype.h>
+#include <errno.h>
 #include <stdlib.h>
 #include <stdio.h>
 #include <string.h>
@@ -280,7 +281,8 @@ int lbuf_wr(struct lbuf *lbuf, int fd, int beg, int end)
 	}
 	if (buf_len > 0 && write_fully(fd, buf, buf_len) < 0)
 		return 1;
-	ftruncate(fd, sz);
+	if (ftruncate(fd, sz) < 0 && errno != EINVAL)	/* EINVAL: not a regular file */
+		return 1;
 	return 0;
 }
 
